@@ -44,6 +44,9 @@
 #include "upipe-modules/upipe_discard_blocking.h"
 #include "upipe-modules/upipe_burst.h"
 #include "upipe-modules/upipe_m3u_reader.h"
+#include "upipe-modules/upipe_rtp_pcm_unpack.h"
+#include "upipe-modules/upipe_rtp_pcm_pack.h"
+#include "upipe/uref_sound_flow.h"
 #include "upipe-ts/upipe_ts_check.h"
 #include "upipe-ts/upipe_ts_sync.h"
 #include "upipe-ts/upipe_ts_align.h"
@@ -102,6 +105,11 @@ struct desc {
     size_t (*gen_payload)(struct st *, uint8_t *buf, size_t max, struct uref *u_attrs);
     /* allocator for pipes that are not allocated with upipe_void_alloc */
     struct upipe *(*alloc)(struct st *, struct upipe_mgr *, struct uprobe *);
+    /* attributes the flow definition needs besides its name */
+    void (*amend_def)(struct uref *fd);
+    /* the pipe maps its whole input with one uref_block_read (reads past the
+     * first segment otherwise: a defect outside the listed properties, see DESIGN.md) */
+    bool linear_input_only;
 };
 
 /* numeric option with a getter and a setter */
@@ -452,6 +460,29 @@ static struct upipe *alloc_qsink(struct st *s, struct upipe_mgr *mgr, struct upr
     return upipe_qsink_alloc(mgr, probe, s->subs[0]);
 }
 
+static void amend_pcm(struct uref *fd)
+{
+    uref_sound_flow_set_rate(fd, 48000);
+    uref_sound_flow_set_channels(fd, 2);
+}
+static void amend_s32(struct uref *fd)
+{
+    uref_sound_flow_set_rate(fd, 48000);
+    uref_sound_flow_set_channels(fd, 2);
+    uref_sound_flow_set_planes(fd, 0);
+    uref_sound_flow_add_plane(fd, "all");
+    uref_sound_flow_set_sample_size(fd, 8);
+}
+/* 24-bit big-endian stereo samples: mostly whole frames of 6 octets */
+static size_t gen_pcm24(struct st *s, uint8_t *b, size_t max, struct uref *u)
+{
+    (void)s; (void)max; (void)u;
+    size_t n = 6 * vh_below(R, 40);
+    if (vh_chance(R, 1, 10)) n += vh_below(R, 6);
+    for (size_t i = 0; i < n; i++) b[i] = (uint8_t)vh_rand(R);
+    return n;
+}
+
 static const struct desc catalogue[] = {
     { "idem", upipe_idem_mgr_alloc, K_IDENTITY, "block.", NULL, NULL, NULL, x_identity, false, false, NULL, 0, true },
     { "null", upipe_null_mgr_alloc, K_SINK, "block.", NULL, NULL, NULL, NULL, false, false, NULL, 0, false },
@@ -486,6 +517,7 @@ static const struct desc catalogue[] = {
     { "ts_pes_decaps", upipe_ts_pesd_mgr_alloc, K_OTHER, "block.mpegtspes.", "block.", NULL, NULL, NULL, true, false, NULL, 0, false, gen_pes_payload },
     { "ts_psi_merge", upipe_ts_psim_mgr_alloc, K_OTHER, "block.mpegtspsi.", "block.", NULL, NULL, NULL, true, false, NULL, 0, false, gen_psi_payload },
     { "h264_framer", upipe_h264f_mgr_alloc, K_OTHER, "block.h264.pic.", "pic.", NULL, NULL, NULL, true, false, NULL, 0, false, gen_annexb },
+    { "rtp_pcm_unpack", upipe_rtp_pcm_unpack_mgr_alloc, K_OTHER, "block.s24be.sound.", "pic.", NULL, NULL, NULL, true, false, NULL, 0, false, gen_pcm24, NULL, amend_pcm, true },
     { "qsink", upipe_qsink_mgr_alloc, K_HOLD, "block.", NULL, NULL, ctl_nopt, x_identity, false, true, opts_maxlen, 1, false, NULL, alloc_qsink },
     { "h265_framer", upipe_h265f_mgr_alloc, K_OTHER, "block.hevc.pic.", "pic.", NULL, NULL, NULL, true, false, NULL, 0, false, gen_annexb },
 };
@@ -535,6 +567,7 @@ static struct uref *make_flow_def(const char *def, uint64_t seed)
 {
     struct uref *fd = uref_alloc_control(E.uref_mgr);
     uref_flow_set_def(fd, def);
+    if (S.d && S.d->amend_def && !strcmp(def, S.d->def)) S.d->amend_def(fd);
     if (seed) uref_attr_set_unsigned(fd, seed, UDICT_TYPE_UNSIGNED, "x.defseed");
     return fd;
 }
@@ -564,7 +597,8 @@ static struct uref *make_input(struct in_rec *rec, uint64_t seq)
     if (gen && S.gen_start) uref_block_set_start(u);
     /* segmented payloads: independent buffers appended to each other (every
      * segment writable on its own, odd sizes likely) ... */
-    if (n > 12 && vh_chance(R, 1, 4)) {
+    if (S.d && S.d->linear_input_only) { /* one segment */ }
+    else if (n > 12 && vh_chance(R, 1, 4)) {
         uint8_t *all = malloc(n);
         uref_block_extract(u, 0, -1, all);
         int nseg = 2 + vh_below(R, 2);
